@@ -1103,6 +1103,22 @@ class LazyMaskedRows:
     def __array__(self, dtype=None, copy=None):
         return _np.asarray(self.concretize())
 
+    def __iter__(self):
+        return iter(self.concretize())
+
+
+def _lazy_delegate(name):
+    def f(self, *a):
+        return getattr(self.concretize(), name)(*a)
+    f.__name__ = name
+    return f
+
+
+for _n in ("__lt__", "__le__", "__gt__", "__ge__", "__eq__", "__ne__", "__add__", "__radd__", "__sub__", "__rsub__", "__mul__", "__rmul__",
+           "__truediv__", "__rtruediv__", "__neg__", "__abs__", "__pow__", "__matmul__", "__rmatmul__"):
+    setattr(LazyMaskedRows, _n, _lazy_delegate(_n))
+LazyMaskedRows.__hash__ = None
+
 
 def _conc_key(key):
     if _is_symbool_array(key):
